@@ -40,7 +40,8 @@ BOUNDS = {
              'operator and number; pipeline with 3 candidate embeddings and symbolic constraint outcomes; every constraint form '
              'of the grammar read from text with symbolic operator/digit/negation choice; whitespace holes of <= 2 filler '
              'characters and label names of <= 2 symbolic characters',
-    'thorough': 'same, <= 4 neighbours, <= 3 rings, every token boundary of the layout seeds',
+    'thorough': 'same with every bond kind for the neighbour-count constraint, <= 3 rings, <= 2 neighbours in the text->constraint '
+                'translation, every token boundary of the layout seeds',
 }
 STUBS = ['RDKit fakes (atoms, bonds, ring info) with symbolic fields; fake Chem in MolQuery.py so that isinstance(bond, Chem.Bond) '
          'holds; the atom matcher of "connected to X" is a symbolic flag per neighbour; HoleStr buffer for layout']
@@ -490,7 +491,7 @@ EVALS = ['ConstraintNumber', 'AtomRadical', 'AtomIsInRing', 'AtomIsAromatic', 'A
 
 def obligations(tier, seed):
     q = tier == 'quick'
-    to = 200 if q else 2400
+    to = 200 if q else 1200
     obs = []
     for w in EVALS:
         if w == 'AtomConnectivityAtom':
@@ -498,7 +499,7 @@ def obligations(tier, seed):
             for ki in kinds:
                 for oi in range(5):
                     obs.append(dict(name='evaluator_%s_%s_op%d' % (w, BKINDS[ki], oi), func='h_evaluator',
-                                    param=dict(which=w, nbrs=2 if q else 3, fix=dict(kind=ki, op=oi)), timeout=to))
+                                    param=dict(which=w, nbrs=2, fix=dict(kind=ki, op=oi)), timeout=to))
         else:
             obs.append(dict(name='evaluator_' + w, func='h_evaluator', param=dict(which=w, rings=2 if q else 3), timeout=to))
     for bits in range(16):
